@@ -47,7 +47,7 @@ def run_scenario(root, nenf, actions, seed):
             fs = FsSim(r)
             fs.symlink_main = (i == 0 and seed % 2 == 1)
             fs.mkdir('policy.d')
-            fs.write('policy.d', 'keep.yaml', {'kept': 'role:kept'}, 'yaml')
+            fs.write('policy.d', 'keep.yaml', {'kept': 'role:kept', 'default': 'role:dflt'}, 'yaml')
             if i != 2:
                 fs.mkdir('second.d')        # policy.d is then NOT the last existing directory
             if i != 1:
@@ -126,6 +126,19 @@ def run_scenario(root, nenf, actions, seed):
         fe.register_defaults(shared)
         fe.load_rules()
         fo = observe(fe)
+
+        def unknown(enf):
+            try:
+                return [bool(enf.enforce('zz_unknown_name', {}, {'roles': [r]})) for r in ('dflt', 'other')]
+            except Exception as ex:   # noqa
+                return 'EXC ' + type(ex).__name__
+        if unknown(x['e']) != unknown(fe):
+            viol = ('not-as-once', 'enforcer %d after %s: an unknown name is decided %r, by a fresh enforcer loading the same '
+                    'files once %r' % (idx, act, unknown(x['e']), unknown(fe)),
+                    {'kind': 'failing-input', 'suite': 'spec-c12',
+                     'input': {'nenf': nenf, 'actions': [list(a) for a in actions]},
+                     'expected': unknown(fe), 'observed': unknown(x['e'])})
+            break
         if fo['rules'] != o['rules']:
             viol = ('not-as-once', 'enforcer %d after %s: effective policy %r differs from a fresh enforcer loading the same '
                     'files once: %r' % (idx, act, o['rules'], fo['rules']),
